@@ -376,6 +376,11 @@ fn sigs(o: &Opts) {
     let sig_bytes = |s: &Signature| -> Vec<u8> { bincode::serialize(s).unwrap() };
     let sig_from = |b: &[u8]| -> Signature { bincode::deserialize(b).unwrap() };
     let mut seen = 0u64;
+    // every call into the verifier is panic-safe here: a panic is an observation (flag 6 and a rejected answer), not a harness failure
+    let panicked = std::cell::Cell::new(false);
+    let safe = |f: &mut dyn FnMut() -> bool| -> bool {
+        match std::panic::catch_unwind(std::panic::AssertUnwindSafe(|| f())) { Ok(b) => b, Err(_) => { panicked.set(true); false } }
+    };
     for k in 0..o.cases {
         if let Some(only) = o.only { if only != k { continue; } }
         let mut rng = case_rng(o.seed, 18, k as u64);
@@ -385,17 +390,18 @@ fn sigs(o: &Opts) {
         let digest = Digest(d);
         let honest: Vec<(crypto::PublicKey, Signature)> = (0..m).map(|i| (keys[i].0, Signature::new(&digest, &keys[i].1))).collect();
         // f1, f2: honest signatures verify, alone and as a batch (also the empty batch: vacuously all members verify)
-        let f1 = honest.iter().all(|(pk, s)| s.verify(&digest, pk).is_ok());
-        let f2 = Signature::verify_batch(&digest, &honest).is_ok() && Signature::verify_batch(&digest, &Vec::<(crypto::PublicKey, Signature)>::new()).is_ok();
+        panicked.set(false);
+        let f1 = honest.iter().all(|(pk, s)| safe(&mut || s.verify(&digest, pk).is_ok()));
+        let f2 = safe(&mut || Signature::verify_batch(&digest, &honest).is_ok()) && safe(&mut || Signature::verify_batch(&digest, &Vec::<(crypto::PublicKey, Signature)>::new()).is_ok());
         // f3: single-bit flips of signature, digest or key are rejected individually
         let mut f3 = true; let mut flips = vec![];
         for _ in 0..24 {
             let i = rng.gen_range(0, m); let (pk, s) = honest[i].clone();
             let what = rng.gen_range(0, 3);
             let ok = match what {
-                0 => { let mut b = sig_bytes(&s); let bit = if rng.gen_bool(0.3) { 509 + rng.gen_range(0, 3) } else { rng.gen_range(0, 512) }; flip(&mut b, bit); flips.push(format!("sig bit {}", bit)); sig_from(&b).verify(&digest, &pk).is_ok() }
-                1 => { let mut dd = digest.0; let bit = rng.gen_range(0, 256); flip(&mut dd, bit); flips.push(format!("digest bit {}", bit)); s.verify(&Digest(dd), &pk).is_ok() }
-                _ => { let mut kk = pk.0; let bit = rng.gen_range(0, 256); flip(&mut kk, bit); flips.push(format!("key bit {}", bit)); s.verify(&digest, &crypto::PublicKey(kk)).is_ok() }
+                0 => { let mut b = sig_bytes(&s); let bit = if rng.gen_bool(0.3) { 509 + rng.gen_range(0, 3) } else { rng.gen_range(0, 512) }; flip(&mut b, bit); flips.push(format!("sig bit {}", bit)); let sg = sig_from(&b); safe(&mut || sg.verify(&digest, &pk).is_ok()) }
+                1 => { let mut dd = digest.0; let bit = rng.gen_range(0, 256); flip(&mut dd, bit); flips.push(format!("digest bit {}", bit)); safe(&mut || s.verify(&Digest(dd), &pk).is_ok()) }
+                _ => { let mut kk = pk.0; let bit = rng.gen_range(0, 256); flip(&mut kk, bit); flips.push(format!("key bit {}", bit)); safe(&mut || s.verify(&digest, &crypto::PublicKey(kk)).is_ok()) }
             };
             if ok { f3 = false; }
         }
@@ -417,17 +423,18 @@ fn sigs(o: &Opts) {
                     _ => { batch[p].1 = Signature::default(); }
                 }
             }
-            let each = batch.iter().all(|(pk, s)| s.verify(&digest, pk).is_ok());
-            let all = Signature::verify_batch(&digest, &batch).is_ok();
+            let each = batch.iter().all(|(pk, s)| safe(&mut || s.verify(&digest, pk).is_ok()));
+            let all = safe(&mut || Signature::verify_batch(&digest, &batch).is_ok());
             if each != all { f4 = false; }
         }
         // f5: the signature service signs what Signature::new signs (Ed25519 is deterministic), and it verifies
         let rt = fresh_rt();
         let f5 = rt.block_on(async { let mut svc = crypto::SignatureService::new(clone_secret(&keys[0].1)); let s = svc.request_signature(digest.clone()).await;
                                      s.verify(&digest, &keys[0].0).is_ok() && sig_bytes(&s) == sig_bytes(&honest[0].1) });
+        let f6 = !panicked.get();
         e.stat(&format!("batch size {}", m), 1); seen += 1;
         let fl = |b: bool| if b { "1" } else { "0" };
-        e.case(k, "", &format!("verdict_of [{}; {}; {}; {}; {}]", fl(f1), fl(f2), fl(f3), fl(f4), fl(f5)), json!({"case": k, "batch_size": m, "bit_flips": flips, "batch_corruptions": corrs, "flags": [f1, f2, f3, f4, f5]}));
+        e.case(k, "", &format!("verdict_of [{}; {}; {}; {}; {}; {}]", fl(f1), fl(f2), fl(f3), fl(f4), fl(f5), fl(f6)), json!({"case": k, "batch_size": m, "bit_flips": flips, "batch_corruptions": corrs, "flags": [f1, f2, f3, f4, f5, f6], "flags_meaning": ["honest signatures verify", "honest batch (and the empty batch) verifies", "every single-bit flip is rejected", "a batch is accepted iff every member verifies", "the signature service signs like Signature::new", "no verification call panicked"]}));
     }
     e.stat("distinct_nontrivial", seen);
     e.finish(&o.out, "sigs", o.seed);
